@@ -78,10 +78,28 @@ pub struct SimResolver {
     /// a resolver that itself asks the namespace (classifying the records it hands out, as a real
     /// record store would): per-mille probability per callback, and the namespace to ask
     pub p_reenter: u64,
+    /// > 0: refs c0..c<len-1> resolve to the records of a long acyclic chain
+    pub chain_len: u64,
     pub ns: Option<&'static Namespace<'static>>,
     pub reentries: Cell<u64>,
 }
 
+
+/// record i of the long chain: an equip contained by the next one
+pub fn chain_record(i: u64, len: u64) -> Dict {
+    let mut d = Dict::new();
+    d.insert("id".into(), Value::make_ref(&format!("c{i}")));
+    d.insert("equip".into(), Value::Marker);
+    d.insert("x".into(), Value::make_number(i as f64));
+    if i + 1 < len {
+        let next = Value::make_ref(&format!("c{}", i + 1));
+        d.insert("equipRef".into(), next.clone());
+        d.insert("a".into(), next);
+    } else {
+        d.insert("site".into(), Value::Marker);
+    }
+    d
+}
 
 const REF_TAGS: &[&str] = &["siteRef", "equipRef", "spaceRef", "airRef", "hotWaterRef", "a", "b"];
 
@@ -167,6 +185,14 @@ impl SimResolver {
 
     fn lookup(&self, r: &Ref) -> Option<Dict> {
         self.lookups.set(self.lookups.get() + 1);
+        if self.chain_len > 0 {
+            // a long acyclic chain c0 -> c1 -> ... -> c<len-1>, served without storing it
+            if let Some(i) = r.value.strip_prefix('c').and_then(|d| d.parse::<u64>().ok()) {
+                if i < self.chain_len {
+                    return Some(chain_record(i, self.chain_len));
+                }
+            }
+        }
         self.store.borrow().get(&r.value).cloned()
     }
 }
@@ -319,6 +345,8 @@ pub fn run_case(case: &Case, ns: &'static Namespace<'static>) -> Outcome {
             let terms = count_terms(&text);
             // every term follows each ref of the finite universe at most once (visited sets), and a
             // path of <= 4 segments crosses at most 4 refs per resolution
+            let chain_len = case.extra.get("chain_len").and_then(|v| v.as_u64()).unwrap_or(0);
+            let universe = universe + chain_len;
             let budget = terms * (universe + 2) * 6 + 16;
             let resolver = SimResolver {
                 store: RefCell::new(store.clone()),
@@ -329,10 +357,11 @@ pub fn run_case(case: &Case, ns: &'static Namespace<'static>) -> Outcome {
                 p_mutate,
                 max_ref_calls: budget,
                 p_reenter: case.extra.get("p_reenter").and_then(|v| v.as_u64()).unwrap_or(0),
+                chain_len,
                 ns: Some(ns),
                 reentries: Cell::new(0),
             };
-            let subjects: Vec<Dict> = store.values().cloned().collect();
+            let subjects: Vec<Dict> = if chain_len > 0 { vec![chain_record(0, chain_len)] } else { store.values().cloned().collect() };
             let (caught, _) = guarded(0, || -> Vec<bool> {
                 subjects
                     .iter()
@@ -478,6 +507,22 @@ impl C09 {
                 }
             }
         }
+        // long acyclic ref chains under the evaluator (one record per hop, served lazily)
+        let chain_lens: Vec<u64> = match self.ctx.tier {
+            Tier::Quick => vec![1000, 100_000],
+            Tier::Thorough => vec![10, 1000, 10_000, 100_000, 1_000_000],
+        };
+        for n in &chain_lens {
+            for filter in [format!("containedBy? @c{}", n - 1), "containedBy? @nope".to_string(), format!("a *== @c{}", n - 1), "a *== @nope".to_string(), format!("equipRef *== @c{}", n / 2), "containedBy? ^site @nope".to_string()] {
+                let mut c = Case::new("C09", "filter-eval", filter.as_bytes());
+                c.extra.insert("chain_len".into(), (*n).into());
+                c.extra.insert("store_seed".into(), 1u64.into());
+                c.extra.insert("nest_shape".into(), "eval-ref-chain".into());
+                c.extra.insert("nest_depth".into(), (*n).into());
+                c.origin = format!("length ladder eval-ref-chain n={n} {filter}");
+                cases.push(c);
+            }
+        }
         // length ladders: long flat chains and long literals (no nesting)
         let lengths: Vec<usize> = match self.ctx.tier {
             Tier::Quick => vec![1000, 100_000],
@@ -543,6 +588,10 @@ impl Engine for C09 {
         }
         units.push(UnitSpec { id, name: "ladder".into(), isolated: true, exhaustive: false });
         id += 1;
+        for b in gen_zinc::BOUNDARIES {
+            units.push(UnitSpec { id, name: format!("boundary:{b}"), isolated: false, exhaustive: true });
+            id += 1;
+        }
         // two-fault enumeration for the short base filters
         let max2 = match self.ctx.tier {
             Tier::Quick => 12,
@@ -564,6 +613,21 @@ impl Engine for C09 {
         }
         if unit.name == "ladder" {
             return Box::new(self.ladder().into_iter());
+        }
+        if let Some(b) = unit.name.strip_prefix("boundary:") {
+            // every token kind straddling a buffer-size boundary, a little text after it
+            let boundary: usize = b.parse().unwrap_or(4096);
+            let uname = unit.name.clone();
+            return Box::new((0..gen_zinc::FILTER_UNIT.len()).flat_map(move |shift| {
+                let doc = gen_zinc::boundary_doc("", gen_zinc::FILTER_UNIT, "z", b' ', boundary, shift);
+                let uname = uname.clone();
+                ["filter-parse", "filter-parse-capi"].into_iter().map(move |sink| {
+                    let mut c = Case::new("C09", sink, &doc);
+                    c.extra.insert("mutation".into(), "boundary".into());
+                    c.origin = format!("{uname} shift={shift}");
+                    c
+                })
+            }));
         }
         if let Some(name) = unit.name.strip_prefix("enum2:") {
             let base = self.base_filters().into_iter().find(|(n, _)| n == name).expect("unit exists").1.into_bytes();
